@@ -173,6 +173,8 @@ class Check:
         per_kind = {}
         for v in new:
             k0 = (v.get("prop"), v.get("kind"), v.get("alg"), v.get("site"))
+            if v.get("kind") == "mode-hazard":
+                k0 = (v.get("prop"), v.get("kind"), None, v.get("site"))
             per_kind[k0] = per_kind.get(k0, 0) + 1
             if per_kind[k0] > 2:  # at most two witnesses per (call site, failure kind) are replayed and reported
                 continue
@@ -184,12 +186,16 @@ class Check:
                 continue
             if reported >= 12:
                 break
+            if v.get("kind") == "mode-hazard" and sum(1 for k_ in list(seen_new)[: list(seen_new).index(key)] if k_[1] == "mode-hazard") >= 16:
+                continue  # at most 16 hazard sites are replayed per run
             ok, path, info = self.confirm(v)
             if ok:
                 lines.append(f"VIOLATION property={self.pid} replay={path}")
                 lines.append(f"  # {v.get('kind')} at {v.get('alg') or v.get('site')}: {info[:300]}")
                 exit_code = 1
                 reported += 1
+            elif v.get("benign_if_not_reproduced"):
+                self.notes.append(f"{v.get('kind')} at {v.get('alg') or v.get('site')} ({json.dumps(v.get('hazard'), default=str)[:300]}): no observable difference on the real build: {info[:200]}")
             else:
                 self.inconclusive.append(f"counterexample did not reproduce on the real build ({path}): {info[:500]}")
         # 3. known findings still present?
